@@ -269,7 +269,7 @@ def printer_roundtrip(rep, repo, mod, cls, kw, varied):
   if sfn is None:
     rep.fail("R4", unit, "no-printer", "class has no __str__",
              loc=ci.loc())
-    return
+    return False
   loc = owner.module.loc(sfn)
   pe = PE(repo)
   cref = pe.lookup_global(cls, mod)
@@ -284,11 +284,11 @@ def printer_roundtrip(rep, repo, mod, cls, kw, varied):
   except PyRaise as e:
     rep.fail("R4", unit, "printer-raises:%s" % e.exc_name,
              "str(q) raises %s" % e, loc=loc, instance=cfg)
-    return
+    return False
   if not isinstance(text, str):
     rep.fail("R4", unit, "printer-returns-non-string:" + tag,
              "str(q) is %r" % (text,), loc=loc, instance=cfg)
-    return
+    return False
   gq = pe.lookup_global("get_quantizer", mod)
   try:
     q2 = pe.call(gq, [text], {})
@@ -296,29 +296,36 @@ def printer_roundtrip(rep, repo, mod, cls, kw, varied):
     rep.fail("R4", unit, "printed-text-rejected:%s:%s" % (tag, e.exc_name),
              "str(q) = %r is rejected by get_quantizer: %s" % (text, e),
              loc=loc, instance=cfg, facts={"text": text})
-    return
+    return False
   if not isinstance(q2, Obj) or q2.cls is not ci:
     rep.fail("R4", unit, "printed-text-builds-other-object:" + tag,
              "str(q) = %r builds %r" % (text, q2), loc=loc, instance=cfg)
-    return
+    return False
   syms = {"post_training_scale": NF.sym("pts")}
   try:
     pe.rand_counter = 0
     o1 = pe.call(q, [pe.x_input()], {})
+  except PyRaise:
+    # the configuration itself cannot be called (e.g. ternary with a string
+    # alpha and a threshold): not a valid quantizer, outside the quantifier
+    rep.extra["uncallable_configurations_skipped"] = rep.extra.get(
+        "uncallable_configurations_skipped", 0) + 1
+    return True
+  try:
     pe.rand_counter = 0
     o2 = pe.call(q2, [pe.x_input()], {})
   except PyRaise as e:
     rep.fail("R4", unit, "call-raises-after-reparse:" + tag,
              "calling the re-parsed quantizer %r raises %s" % (text, e),
              loc=loc, instance=cfg)
-    return
+    return False
   same = True
   for ph in ("infer", "train"):
     if not equal_mod_finite(Fwd(ph, syms)(o1.term), Fwd(ph, syms)(o2.term)):
       same = False
   if same:
     rep.ok("R4")
-    return
+    return True
   params = [p for p, _ in ci.init_params()[0]]
   changed = sorted(a for a in set(q.attrs) | set(q2.attrs)
                    if a not in ("built", "scale", "quantization_scale") and
@@ -327,6 +334,7 @@ def printer_roundtrip(rep, repo, mod, cls, kw, varied):
            "str(q) = %r parses to a quantizer that computes a different "
            "function; attributes that differ: %s" % (text, changed), loc=loc,
            instance=cfg, facts={"text": text, "changed": changed})
+  return False
 
 
 def run(rep, repo, tier):
@@ -349,8 +357,9 @@ def run(rep, repo, tier):
       raise AnalysisError("anchor-missing class %s" % cls)
     base, alts = ALTS[cls]
     params = [p for p, _ in mod.classes[cls].init_params()[0]]
-    printer_roundtrip(rep, repo, mod, cls, dict(base), None)
+    base_ok = printer_roundtrip(rep, repo, mod, cls, dict(base), None)
     n += 1
+    singles = []
     for p, vals in sorted(alts.items()):
       if p not in params or p in ("var_name", "use_variables"):
         continue   # storage-only options do not change the function
@@ -363,8 +372,33 @@ def run(rep, repo, tier):
         kw = dict(base)
         kw.update(ctx)
         kw[p] = v
-        printer_roundtrip(rep, repo, mod, cls, kw, p)
+        if printer_roundtrip(rep, repo, mod, cls, kw, p):
+          singles.append((p, v, ctx))
         n += 1
+    if tier == "thorough" and base_ok:
+      # two options at a time, among those that round-trip one at a time
+      # (a pair that contains an option which already fails alone adds
+      # nothing): catches printers whose positional slots or separators
+      # depend on which other options are present
+      for i in range(len(singles)):
+        for j in range(i + 1, len(singles)):
+          p1, v1, c1 = singles[i]
+          p2, v2, c2 = singles[j]
+          if p1 == p2 or p1 in c2 or p2 in c1 or any(
+              k in c2 and c2[k] != c1[k] for k in c1):
+            continue
+          kw = dict(base)
+          kw.update(c1)
+          kw.update(c2)
+          kw[p1] = v1
+          kw[p2] = v2
+          pe0 = PE(repo)
+          try:
+            pe0.call(pe0.lookup_global(cls, mod), [], dict(kw))
+          except PyRaise:
+            continue   # the constructor rejects the combination
+          printer_roundtrip(rep, repo, mod, cls, kw, "%s+%s" % (p1, p2))
+          n += 1
     for kw in EXPONENT_ALTS.get(cls, []):
       kw2 = dict(base)
       kw2.update(kw)
